@@ -48,8 +48,10 @@ CHECKS = {
         "and feeds it zeros and unit impulses: the real add_row then emits the exact impulse responses of the recursion, which decide stability "
         "(decay below 1e-13 within 12000 steps, also from a random start) and the stationary covariance at lags 0..n_columns against an independent "
         "float64 von Karman formula - exactly, without sampling noise; decoy instances that differ in one parameter are created first. Histories also "
-        "contain pickle/deepcopy checkpoints, numba thread-count changes and simulated forks; one run in 25 uses an outer scale of 1e3..1e7 pixels for "
-        "1200 rows (finite/shape/shift), with an aggregate oracle over the region where the constructor normally refuses. Two open known findings "
+        "contain pickle/deepcopy checkpoints, numba thread-count changes and simulated forks; one run in 25 uses an outer scale of 1e3..1e8 pixels for "
+        "1200 rows (finite/shape/shift), with an aggregate oracle (divergence, growing impulse response) over the region where the constructor "
+        "normally refuses. In a third of the histories an allocating NumPy call inside one add_row raises MemoryError: the call may raise, the screen "
+        "must be the old one or a proper one-row shift, later steps are judged as usual. Two open known findings "
         "(divergence for outer scales >= 1e4 pixels). Sampling over configurations and histories, not proof.",
    note="Only public names are used (constructor, add_row, scrn, repr/str). Stationary stage covers the von Karman variant in nx<=24, n_columns<=4, "
         "L0/pixel<=60 with tolerance 1e-5 of the variance (aotools evaluates the covariance at float32-rounded separations); if a refactor's draw "
@@ -65,7 +67,7 @@ CHECKS = {
         "the clock are simulated so unseeded screens replay bit for bit; a sample of runs is re-executed in a fresh interpreter under another "
         "PYTHONHASHSEED, and a run whose digest depends on which unrelated runs preceded it in the process is reported as hidden state. Actors may "
         "overwrite returned screens in place, restart through make_initial_screen(), checkpoint by deepcopy/pickle and step the copy, share one "
-        "SeedSequence object, use numpy-typed and neighbouring 64-bit seeds; numba's thread count changes as noise; a sample of plans is re-run with the "
+        "SeedSequence object, use numpy-typed and neighbouring 64-bit seeds; numba's thread count changes as noise; the live screen of an actor is passed to analysis functions of the library as noise; unseeded objects restart and must give a new screen; a sample of plans is re-run with the "
         "actors in another order in pristine processes.",
    note="Twins are compared with each other on the same tree (no goldens). Pre-emption at library-call granularity (aotools has no threads). "
         "Seeds compared as 'different' are distinct ints or an int vs a 3-element sequence.",
